@@ -75,14 +75,18 @@ class DiskProp(object):
     def __init__(self, pid):
         self.id = pid
         self.judge = pid
-        common = ("Each run is a history on one disk image: tool_add (real DiskFile.add_file), peer_save (RefDisk, own allocation "
-                  "policy and end-of-file convention), peer_kill, restart (DiskFile rebuilt from durable bytes), cli_list / cli_append "
-                  "(file_util on SimFS), under a per-run granule fill order (default / identity / reversed / outward / random "
-                  "permutation). ")
+        common = ("Each run is a history on one disk image: tool_add (real DiskFile.add_file; the first container of a run is the tool's own "
+                  "empty disk), peer_save (RefDisk, own allocation policy, end-of-file convention and directory slot up to 71), peer_kill, "
+                  "restart (DiskFile rebuilt from durable bytes), live_list and lookup (listing / read-only queries on the object that "
+                  "keeps being written to), tool_new_disk, cli_list / cli_append (file_util on SimFS), under a per-run granule fill order "
+                  "(default / identity / reversed / outward / random permutation) and interpreter configuration (python / python -O). "
+                  "File kinds: ML (also with the ASCII flag), tokenised BASIC, data, ASCII up to 156,672 bytes, and files too long for "
+                  "their 16-bit length word (must be refused). ")
         if pid == "C07":
             self.title = "Disk images round-trip every file exactly, wherever its granules lie"
             self.rule = common + ("Invariant after every op: the tool's listing equals the model in directory order (name, extension, type, "
-                                  "ASCII flag, load/exec for ML, data). Families: tool-only, peer-only-then-list, mixed. A state is (live files, "
+                                  "ASCII flag, load/exec for ML, data); after a refused add the files stored before must still list from "
+                                  "the same object. Families: tool-only, peer-only-then-list, mixed. A state is (live files, "
                                   "free granules bucket, chain class of the newest file [single/adjacent/crosses track 17/fragmented], stream "
                                   "length class relative to sector and granule boundaries, file kind, last op, fill order, restarted?); "
                                   "non-trivial = at least one tool op (add or list of a non-empty image) preceded it.")
